@@ -279,6 +279,9 @@ class C14(core.Property):
     ]
     assumptions = [
         "values written by puts are pairwise distinct in generated cases (a returned value names its write)",
+        "a value returned by the implementation that is not a plain non-negative int (an object nobody wrote: a copied tombstone sentinel, a "
+        "wrapped or stringified value) crosses the protocol as the reserved number 999999999 (c14_impl.vtok), which no workload writes, so the "
+        "Spec reports it under its own clauses (value never written / invented value)",
         "operation intervals are measured in executed generator segments (a refinement of simulated time)",
         "page counts: every SSTable has < 16 keys, so every flush/compaction write costs one page (equal latencies)",
         "B-tree / KVStore keys are k00..k11 (index order = string order); transaction values are pairwise distinct and differ from "
